@@ -57,7 +57,7 @@ class StubEntity(object):
 
 
 def _gr_configs(tier):
-    """all reference graphs over 3 objects (each object: 2 reference slots -> None or another object), statuses created/modified, every start object"""
+    """all reference graphs over 3 objects (each object: 2 reference slots -> None, another object or ITSELF), statuses created/modified, every start object"""
     n = 3
     out = []
     targets = [None] + list(range(n))
@@ -76,7 +76,7 @@ def _gr_case(cfg, values):
         objs = [_mk_stub(cache, k, s) for k, s in enumerate(cfg['statuses'])]
         for k, o in enumerate(objs):
             for attr, slot in ((A1, cfg['r1'][k]), (A2, cfg['r2'][k])):
-                if slot is not None and slot != k: o._vals_[attr] = objs[slot]
+                if slot is not None: o._vals_[attr] = objs[slot]                      # (an object may refer to itself: a cycle of length one)
         st['objs'] = objs; st['cache'] = cache
         # exactly what SessionCache.flush does with the queue
         for obj in cache.objects_to_save:
@@ -88,7 +88,7 @@ def _gr_case(cfg, values):
 def _edges(cfg):
     e = {}
     for k in range(len(cfg['statuses'])):
-        e[k] = [t for t in (cfg['r1'][k], cfg['r2'][k]) if t is not None and t != k]
+        e[k] = [t for t in (cfg['r1'][k], cfg['r2'][k]) if t is not None]
     return e
 
 
